@@ -22,7 +22,7 @@ def graph_case(rng, tier):
     E = c02.Env()
     n = 2 + rng.below(7)
     names = ["s%d" % i for i in range(n)]
-    kind = rng.pick(["self", "chain", "cycle", "diamond", "repeat", "default-cycle", "default-cycle-1", "ancestor", "descendant", "name-ref", "random"])
+    kind = rng.pick(["self", "chain", "cycle", "diamond", "repeat", "default-cycle", "default-cycle-1", "ancestor", "descendant", "name-ref", "random", "cycle-resolver", "cycle-resolver"])
     E.root["leaf"] = [("lit", "alpha")]
     E.root["lf2"] = [("lit", "x-y")]
     def ref(nm): return ("ref", [("lit", nm)])
@@ -37,6 +37,19 @@ def graph_case(rng, tier):
     elif kind == "cycle":
         for i, nm in enumerate(names):
             E.root[nm] = [("lit", "c"), ref(names[(i + 1) % n])]
+    elif kind == "cycle-resolver":
+        # a cycle (through plain references, references inside longer strings, existence tests) that a resolver or an Env
+        # knowing one of the names absorbs at the point of re-entry
+        k = 1 + rng.below(min(3, n))
+        for i in range(k):
+            nxt = names[(i + 1) % k]
+            r = rng.below(4)
+            E.root[names[i]] = ([ref(nxt)] if r == 0 else [("lit", "x-"), ref(nxt)] if r == 1 else [ref(nxt), ("lit", "-y")] if r == 2
+                                else [("op", ":+", [("lit", nxt)], [("lit", "set")])])
+        known = {nm: "R" + nm for nm in names[:k] if rng.chance(0.6)} or {names[0]: "R0"}
+        (E.envs if rng.chance(0.3) else E.res).append(known)
+        for nm in names[k:]:
+            E.root[nm] = [ref(rng.pick(names[:k]))] if rng.chance(0.7) else [("lit", "p "), ref(rng.pick(names[:k]))]
     elif kind == "diamond":
         E.root["s0"] = [ref("s1"), ("lit", " "), ref("s2 top".split()[0] if n > 2 else "s1")]
         E.root["s1"] = [ref("leaf")]
@@ -103,7 +116,9 @@ def gen(rng, tier):
         has_ops = any(c02.has_ops(E.root[nm]) - {"ref"} for nm in names)
         c["reads"] = [r for r in c["reads"] if r.get("r") != "view"][:len(names)]
         c["expect"] = c["expect"][:len(c["reads"])]
-        if not has_ops or kind == "default-cycle-1":
+        # (what a cycle absorbed at the point of re-entry evaluates to depends on where the evaluation entered it: one Unpack of
+        # the whole configuration is order dependent for such graphs - the D17 class - so they are read setting by setting)
+        if (not has_ops or kind == "default-cycle-1") and kind != "cycle-resolver":
             extra.append({"r": "view"})
         # the same settings through typed Unpack targets (list, duration, number, pointer): a reference that is not
         # re-entered may fail to convert, but never with a cyclic-reference error; where the string is known the
@@ -136,7 +151,7 @@ def gen(rng, tier):
             extra.append({"r": "childview", "name": "o", "idx": -1})
         c["reads"] += extra
         c["expect"] += [None] * len(extra)
-        c["repeat"] = 3 if (not has_ops or kind == "default-cycle-1") else 1
+        c["repeat"] = 3 if (not has_ops or kind == "default-cycle-1") and kind != "cycle-resolver" else 1
         c["_tag"] = "graph/" + kind
         c["_nt"] = kind != "chain"
         c["_sig"] = "%s|%d" % (kind, len(names))
